@@ -126,17 +126,24 @@ def sources(scn, align=3):
     return out
 
 
+_cache_lock = threading.Lock()
+_key_locks = {}
+
+
 def _assemble_cached(name, text, d, cache):
     if cache is None:
         return asm.write_asm(d, name, text)
     key = hashlib.sha1(text.encode()).hexdigest()[:20]
     obj = Path(cache) / f"{name}-{key}.o"
-    if not obj.exists():
-        tmp = str(Path(cache) / f".{name}-{key}.{os.getpid()}.{threading.get_ident()}")
-        Path(tmp + ".s").write_text(text)
-        asm.assemble(tmp + ".s", tmp + ".o")
-        os.replace(tmp + ".s", obj.with_suffix(".s"))
-        os.replace(tmp + ".o", obj)
+    with _cache_lock:
+        lock = _key_locks.setdefault(str(obj), threading.Lock())
+    with lock:                      # an object is written exactly once (wild notices files that change)
+        if not obj.exists():
+            tmp = str(Path(cache) / f".{name}-{key}.{os.getpid()}")
+            Path(tmp + ".s").write_text(text)
+            asm.assemble(tmp + ".s", tmp + ".o")
+            os.replace(tmp + ".s", obj.with_suffix(".s"))
+            os.replace(tmp + ".o", obj)
     return obj
 
 
